@@ -1064,9 +1064,18 @@ def submpo_stream(ctx, col):
         S = sorted(rng.sample(range(Lt), k))
         cplx = rng.random() < 0.4
         pd = [rng.choice([1, 2, 2, 3]) if Lt <= 3 else 2 for _ in range(Lt)]
+        op = rng.choice(["gate_lazy", "gate_lazy_T", "fill_full", "fill_minimal", "apply", "fill_phys_dim"])
+        fill_dim = None
+        if op == "fill_phys_dim":
+            # explicit dimension for the identities (all missing sites share it, it may differ from the present sites')
+            fill_dim = rng.choice([1, 2, 3]) if Lt <= 3 else 2
+            pd = [p if j in S else fill_dim for j, p in enumerate(pd)]
+        elif op in ("fill_full", "fill_minimal"):
+            # documented default: the identities get the (upper) dimension of the first present site
+            fill_dim = pd[S[0]]
+            pd = [p if j in S else fill_dim for j, p in enumerate(pd)]
         A = build_mpo(rng, k, cplx, False, 2, phys=[(pd[s], pd[s]) for s in S], sites=S, Ltot=Lt)
         psi = build_mps(rng, Lt, cplx, False, 2, phys=pd)
-        op = rng.choice(["gate_lazy", "gate_lazy_T", "fill_full", "fill_minimal", "apply"])
         base = {"L": Lt, "sites": S, "complex": cplx, "phys": pd}
         desc = {**base, "op": f"submpo:{op}", "A": describe(A), "psi": describe(psi)}
         key = f"submpo:{op}"
@@ -1099,8 +1108,13 @@ def submpo_stream(ctx, col):
             if res is not None:
                 expect_vec(ctx, col, key, desc, res, outs_of(psi), coq, ref)
         else:
-            mode = "full" if op == "fill_full" else "minimal"
-            res = guarded(ctx, key, desc, lambda: A.fill_empty_sites(mode))
+            if op == "fill_phys_dim":
+                mode = rng.choice(["full", "minimal"])
+                desc["mode"], desc["phys_dim"] = mode, fill_dim
+                res = guarded(ctx, key, desc, lambda: A.fill_empty_sites(mode, phys_dim=fill_dim))
+            else:
+                mode = "full" if op == "fill_full" else "minimal"
+                res = guarded(ctx, key, desc, lambda: A.fill_empty_sites(mode))
             if res is None:
                 continue
             want = full if mode == "full" else list(range(S[0], S[-1] + 1))
